@@ -47,6 +47,7 @@ def toOp (j : J) : Except String (Op DSpec) := do
   | "deleteMeta" => pure (deleteMetaOf (← getNat j "kind") (toMeta j))
   | "lookup" => pure (.lookup (← toKey j))
   | "systemData" => pure (.systemData (← toKey j))
+  | "elapse" => pure (.elapse ((optNat j "seconds").getD 0))
   | o => throw s!"bad op {o}"
 
 def ofResult : PrepResult (Nat × String × Nat) → J
